@@ -227,6 +227,7 @@ Qed.
 (** ---- C05: one reaction per pattern, rejection of short maps, positions ----------------------------- *)
 Section Structure.
   Variable ext_bit : bool.
+  Variable rk : repl_kind.
   Variable lv : label_vars.
   Variable r : brxn.
   Variable lmap : list Z.
@@ -239,15 +240,15 @@ Section Structure.
     match map_s2p (suffix_of ext_bit lv r p) lmap with Some s => s | None => [] end.
 
   Lemma create_ok_shape rxns :
-    create_iso_rxns ext_bit lv r lmap = Ok rxns ->
+    create_iso_rxns ext_bit rk lv r lmap = Ok rxns ->
     tsl <= length lmap
-    /\ rxns = map (fun p => mk_iso_rxn lv r (suffix_of ext_bit lv r p) (psuffix_of p)) (all_patterns tsl)
+    /\ rxns = map (fun p => mk_iso_rxn rk lv r (suffix_of ext_bit lv r p) (psuffix_of p)) (all_patterns tsl)
     /\ forall p, In p (all_patterns tsl) -> map_s2p (suffix_of ext_bit lv r p) lmap = Some (psuffix_of p).
   Proof.
     unfold create_iso_rxns. fold bs. fold tsl. destruct (Nat.ltb (length lmap) tsl) eqn:Hlt; [discriminate|].
     apply Nat.ltb_ge in Hlt. intro H. apply collect_map_ok in H. split; [exact Hlt|].
     assert (Hall : Forall2 (fun p y => map_s2p (suffix_of ext_bit lv r p) lmap = Some (psuffix_of p)
-                                       /\ mk_iso_rxn lv r (suffix_of ext_bit lv r p) (psuffix_of p) = y)
+                                       /\ mk_iso_rxn rk lv r (suffix_of ext_bit lv r p) (psuffix_of p) = y)
                            (all_patterns tsl) rxns).
     { eapply Forall2_impl; [|exact H]. cbv beta. intros p y Hy. unfold iso_rxn_for in Hy. unfold psuffix_of.
       destruct (map_s2p (suffix_of ext_bit lv r p) lmap); [|discriminate]. inversion Hy. split; reflexivity. }
@@ -258,7 +259,7 @@ Section Structure.
   Qed.
 
   Lemma one_reaction_per_pattern rxns :
-    create_iso_rxns ext_bit lv r lmap = Ok rxns ->
+    create_iso_rxns ext_bit rk lv r lmap = Ok rxns ->
     map lr_name rxns = map (fun p => LIso (r_name r) (p ++ repeat ext_bit (tpl - tsl))) (all_patterns tsl)
     /\ NoDup (map lr_name rxns)
     /\ length rxns = 2 ^ tsl.
@@ -270,15 +271,15 @@ Section Structure.
     - rewrite map_length. apply all_patterns_count.
   Qed.
 
-  Lemma short_map_rejected : length lmap < tsl -> create_iso_rxns ext_bit lv r lmap = Err ErrValue.
+  Lemma short_map_rejected : length lmap < tsl -> create_iso_rxns ext_bit rk lv r lmap = Err ErrValue.
   Proof.
     intro H. unfold create_iso_rxns. fold bs. fold tsl. apply Nat.ltb_lt in H. rewrite H. reflexivity.
   Qed.
 
   Lemma positions rxns p :
-    create_iso_rxns ext_bit lv r lmap = Ok rxns -> In p (all_patterns tsl) ->
+    create_iso_rxns ext_bit rk lv r lmap = Ok rxns -> In p (all_patterns tsl) ->
     exists psuffix,
-      In (mk_iso_rxn lv r (p ++ repeat ext_bit (tpl - tsl)) psuffix) rxns
+      In (mk_iso_rxn rk lv r (p ++ repeat ext_bit (tpl - tsl)) psuffix) rxns
       /\ length psuffix = length lmap
       /\ (forall i m, nth_error lmap i = Some m ->
                       nth_error psuffix i = py_index (p ++ repeat ext_bit (tpl - tsl)) m)
@@ -314,6 +315,123 @@ Proof.
   destruct (Z.leb_spec 0 m) as [H0|H0]; [|lia].
   destruct (Z.ltb_spec m (Z.of_nat (length p + k))) as [H1|H1]; [|lia].
   rewrite nth_error_app2 by lia. apply nth_error_repeat. lia.
+Qed.
+
+(** ---- per-occurrence renaming of the rate arguments ([rename_pos], the repaired form) --------------- *)
+Definition countkey (k : N) (pairs : list (N * lname)) : nat := count_occ N.eq_dec (map fst pairs) k.
+
+Lemma take_first_none k pairs : countkey k pairs = 0 -> take_first k pairs = None.
+Proof.
+  unfold countkey. induction pairs as [|[k' v] pairs IH]; cbn; intro H; [reflexivity|].
+  destruct (N.eq_dec k' k) as [->|Hne]; [discriminate|].
+  destruct (N.eq_dec k k') as [->|_]; [contradiction|]. rewrite (IH H). reflexivity.
+Qed.
+
+Lemma take_first_some k pairs :
+  countkey k pairs <> 0 ->
+  exists v pairs', take_first k pairs = Some (v, pairs')
+                   /\ Permutation (map snd pairs) (v :: map snd pairs')
+                   /\ (forall j, countkey j pairs = if N.eq_dec k j then S (countkey j pairs') else countkey j pairs').
+Proof.
+  unfold countkey. induction pairs as [|[k' v] pairs IH]; cbn; intro H; [contradiction|].
+  destruct (N.eq_dec k k') as [->|Hne].
+  - exists v, pairs. split; [reflexivity|]. split; [apply Permutation_refl|].
+    intro j. destruct (N.eq_dec k' j); reflexivity.
+  - destruct (N.eq_dec k' k) as [->|_]; [contradiction|].
+    destruct (IH H) as [v' [pairs' [Ht [Hp Hc]]]]. rewrite Ht.
+    exists v', ((k', v) :: pairs'). split; [reflexivity|]. split.
+    + cbn. apply (Permutation_trans (l' := v :: v' :: map snd pairs')); [apply perm_skip; exact Hp|apply perm_swap].
+    + intro j. cbn. specialize (Hc j). destruct (N.eq_dec k' j) as [->|Hj].
+      * destruct (N.eq_dec k j) as [->|_]; [contradiction|]. rewrite Hc. reflexivity.
+      * exact Hc.
+Qed.
+
+Lemma take_first_app k S P :
+  take_first k (S ++ P)
+  = match take_first k S with
+    | Some (v, S') => Some (v, S' ++ P)
+    | None => match take_first k P with Some (v, P') => Some (v, S ++ P') | None => None end
+    end.
+Proof.
+  induction S as [|[k' v] S IH]; cbn.
+  - destruct (take_first k P) as [[v P']|]; reflexivity.
+  - destruct (N.eq_dec k k'); [reflexivity|]. rewrite IH.
+    destruct (take_first k S) as [[v' S']|]; [reflexivity|].
+    destruct (take_first k P) as [[v' P']|]; reflexivity.
+Qed.
+
+Lemma filter_perm {A} (f : A -> bool) l l' : Permutation l l' -> Permutation (filter f l) (filter f l').
+Proof.
+  induction 1 as [|x l l' _ IH|x y l|l l' l'' _ IH1 _ IH2]; cbn.
+  - constructor.
+  - destruct (f x); [apply perm_skip|]; exact IH.
+  - destruct (f x), (f y); try apply Permutation_refl. apply perm_swap.
+  - eapply Permutation_trans; eassumption.
+Qed.
+
+Definition unused (pairs : list (N * lname)) (k : N) : bool := Nat.eqb (countkey k pairs) 0.
+
+(** when every compound occurs in the arguments exactly as often as it has pairs (or has no pair and no
+    remembered name), the renamed arguments are -- as a multiset -- ALL the new names plus the bystanders *)
+Lemma rename_pos_perm lv args : forall pairs last,
+  (forall k, count_occ N.eq_dec args k = countkey k pairs \/ (countkey k pairs = 0 /\ getN k last = None)) ->
+  Permutation (rename_pos lv pairs last args)
+              (map snd pairs ++ map (bystander_name lv) (filter (unused pairs) args)).
+Proof.
+  induction args as [|k rest IH]; intros pairs last Hinv.
+  - cbn. assert (pairs = []) as ->.
+    { destruct pairs as [|[k v] pairs]; [reflexivity|]. exfalso.
+      destruct (Hinv k) as [H|[H _]]; unfold countkey in H; cbn in H; destruct (N.eq_dec k k); try discriminate; contradiction. }
+    constructor.
+  - cbn [rename_pos]. destruct (Nat.eq_dec (countkey k pairs) 0) as [Hz|Hnz].
+    + rewrite (take_first_none _ _ Hz).
+      destruct (Hinv k) as [H|[_ Hl]]; [cbn in H; destruct (N.eq_dec k k); [rewrite Hz in H; discriminate|contradiction]|].
+      rewrite Hl. cbn [filter]. unfold unused at 1. rewrite Hz. cbn [Nat.eqb map].
+      apply Permutation_cons_app. apply IH. intro j. destruct (N.eq_dec k j) as [<-|Hne].
+      * right. split; [exact Hz|exact Hl].
+      * destruct (Hinv j) as [H|H]; [left|right; exact H]. cbn in H. destruct (N.eq_dec k j); [contradiction|exact H].
+    + destruct (take_first_some _ _ Hnz) as [v [pairs' [Ht [Hp Hc]]]]. rewrite Ht.
+      assert (Hk : count_occ N.eq_dec rest k = countkey k pairs').
+      { destruct (Hinv k) as [H|[H _]]; [|contradiction]. cbn in H. specialize (Hc k).
+        destruct (N.eq_dec k k); [|contradiction]. lia. }
+      cbn [filter]. unfold unused at 1. apply Nat.eqb_neq in Hnz. rewrite Hnz.
+      assert (Hf : filter (unused pairs) rest = filter (unused pairs') rest).
+      { apply filter_ext_in. intros j Hj. unfold unused. specialize (Hc j). destruct (N.eq_dec k j) as [<-|Hne].
+        - rewrite Hc. cbn. symmetry. apply Nat.eqb_neq. rewrite <- Hk.
+          intro H0. apply (count_occ_not_In N.eq_dec) in H0. contradiction.
+        - rewrite Hc. reflexivity. }
+      rewrite Hf.
+      apply (Permutation_trans (l' := v :: (map snd pairs' ++ map (bystander_name lv) (filter (unused pairs') rest)))).
+      * apply perm_skip. apply IH. intro j. destruct (N.eq_dec k j) as [<-|Hne]; [left; exact Hk|].
+        specialize (Hc j). destruct (N.eq_dec k j); [contradiction|].
+        destruct (Hinv j) as [H|[H1 H2]].
+        -- left. cbn in H. destruct (N.eq_dec k j); [contradiction|]. rewrite <- Hc. exact H.
+        -- right. split; [rewrite <- Hc; exact H1|]. unfold getN. rewrite dict_get_set.
+           destruct (N.eq_dec j k) as [->|_]; [contradiction|exact H2].
+      * change (v :: (map snd pairs' ++ ?X)) with ((v :: map snd pairs') ++ X).
+        apply Permutation_app_tail. apply Permutation_sym. exact Hp.
+Qed.
+
+(** pairs whose keys do not occur in the arguments play no role *)
+Lemma rename_pos_unused lv args : forall S P last,
+  (forall k, In k args -> countkey k P = 0) ->
+  rename_pos lv (S ++ P) last args = rename_pos lv S last args.
+Proof.
+  induction args as [|k rest IH]; intros S P last H; [reflexivity|].
+  cbn [rename_pos]. rewrite take_first_app. rewrite (take_first_none k P) by (apply H; left; reflexivity).
+  destruct (take_first k S) as [[v S']|].
+  - f_equal. apply IH. intros j Hj. apply H. right. exact Hj.
+  - f_equal. apply IH. intros j Hj. apply H. right. exact Hj.
+Qed.
+
+Lemma countkey_combine k (cs : list N) (ns : list lname) :
+  length cs = length ns -> countkey k (combine cs ns) = count_occ N.eq_dec cs k.
+Proof. intro H. unfold countkey. rewrite map_fst_combine by exact H. reflexivity. Qed.
+
+Lemma map_snd_combine {A B} (l : list A) (l' : list B) : length l = length l' -> map snd (combine l l') = l'.
+Proof.
+  revert l'. induction l as [|x l IH]; intros [|y l'] H; cbn in *; try reflexivity; try discriminate.
+  f_equal. apply IH. lia.
 Qed.
 
 (** ---- total coefficient of a repacked stoichiometry (Z) ------------------------------------------- *)
@@ -451,6 +569,7 @@ Section Dynamics.
   (** ---- one mapped reaction ------------------------------------------------------------------- *)
   Section OneReaction.
     Variable ext_bit : bool.
+    Variable rk : repl_kind.
     Variable lv : label_vars.
     Variable r : brxn.
     Variable lmap : list Z.
@@ -468,7 +587,7 @@ Section Dynamics.
     Definition prodpairs (p : list bool) := combine bp (split_label (psfx p) lpp).
 
     Lemma mk_iso_rxn_stoich p :
-      lr_stoich (mk_iso_rxn lv r (sfx p) (psfx p))
+      lr_stoich (mk_iso_rxn rk lv r (sfx p) (psfx p))
       = map (fun kz => (fst kz, CZ (snd kz)))
             (repack (map (fun cq => iso_name (fst cq) (snd cq)) (subpairs p))
                     (map (fun cq => iso_name (fst cq) (snd cq)) (prodpairs p))).
@@ -483,18 +602,18 @@ Section Dynamics.
 
     (** the weighted collapse: sum over c's isotopomers of g(bits) * derivative *)
     Lemma weighted_collapse (g : list bool -> R) c rxns :
-      create_iso_rxns ext_bit lv r lmap = Ok rxns ->
+      create_iso_rxns ext_bit rk lv r lmap = Ok rxns ->
       tpl <= length lmap ->
       sum (map (fun bits => g bits * Deriv env rxns (iso_name c bits)) (all_patterns (nl c)))
       = sum (map (fun p => (Gsum g c (prodpairs p) - Gsum g c (subpairs p))
-                           * Rate env (mk_iso_rxn lv r (sfx p) (psfx p)))
+                           * Rate env (mk_iso_rxn rk lv r (sfx p) (psfx p)))
                  (all_patterns tsl)).
     Proof.
       intros Hc Hl. apply create_ok_shape in Hc. fold bs in Hc. fold lps in Hc. fold tsl in Hc.
       destruct Hc as [Hlen [-> Hs]]. fold sfx in Hs. fold psfx in Hs. fold sfx. fold psfx.
       unfold deriv. rewrite (s_ext _ _ (fun bits => sum (map (fun p =>
-           g bits * (CoefAt env (mk_iso_rxn lv r (sfx p) (psfx p)) (iso_name c bits)
-                     * Rate env (mk_iso_rxn lv r (sfx p) (psfx p)))) (all_patterns tsl)))).
+           g bits * (CoefAt env (mk_iso_rxn rk lv r (sfx p) (psfx p)) (iso_name c bits)
+                     * Rate env (mk_iso_rxn rk lv r (sfx p) (psfx p)))) (all_patterns tsl)))).
       2:{ intros bits _. rewrite map_map, <- s_scale. reflexivity. }
       rewrite s_swap. apply s_ext. intros p Hp.
       assert (Hwp : wf_pairs nl (prodpairs p)).
@@ -507,19 +626,29 @@ Section Dynamics.
       rewrite tc_repack, ofZ_minus. unfold ofNat. ring.
     Qed.
 
-    (** ---- mass action: k * product of the substrates, each substrate compound once ------------- *)
-    Variable extra : list N.                       (* the non-substrate arguments (rate constants) *)
+    (** ---- mass action: k * product of the substrates ------------------------------------------------
+        General hypotheses: the arguments are the substrate side (every unit of the stoichiometry once, in any
+        order) plus [extra] arguments that take no part in the reaction and whose renamed name evaluates to
+        their total; the renaming is per occurrence (the repaired form) OR no compound stands twice on the
+        substrate side (the guard under which the dict form is right). *)
+    Definition benv (a : N) : R := sum (map (fun q => env (iso_name a q)) (all_patterns (nl a))).
+
+    (** what an argument that takes no part in the reaction is renamed to *)
+    Definition ext_name (a : N) : lname :=
+      match rk with ReplPositional => bystander_name lv a | _ => LPlain a end.
+
+    Variable extra : list N.                       (* the non-substrate arguments (rate constants, modifiers) *)
     Hypothesis Hfn : r_fn r = FProd.
     Hypothesis Hargs : Permutation (r_args r) (bs ++ extra).
     Hypothesis Hnd_st : NoDup (map fst (r_stoich r)).
-    Hypothesis Hnd_bs : NoDup bs.                  (* DistinctSubstrates *)
-    Hypothesis Hextra : forall a, In a extra -> ~ In a bs /\ ~ In a bp /\ nl a = O.
+    Hypothesis Hrk : rk = ReplPositional \/ NoDup bs.
+    Hypothesis Hextra : forall a, In a extra -> ~ In a bs /\ ~ In a bp /\ env (ext_name a) = benv a.
 
     Let ren ns np := fun k => match getN k (replacements bs ns bp np) with Some v => v | None => LPlain k end.
 
-    Lemma rename_subs ns np : length ns = length bs -> map (ren ns np) bs = ns.
+    Lemma rename_subs ns np : NoDup bs -> length ns = length bs -> map (ren ns np) bs = ns.
     Proof.
-      intro Hl. apply map_via_combine; [lia|]. intros k v Hin. unfold ren, replacements, getN.
+      intros Hnd_bs Hl. apply map_via_combine; [lia|]. intros k v Hin. unfold ren, replacements, getN.
       rewrite dict_update_notin.
       - rewrite (dict_update_in N.eq_dec k v); [reflexivity| |exact Hin].
         rewrite map_fst_combine by lia. exact Hnd_bs.
@@ -533,26 +662,74 @@ Section Dynamics.
       rewrite !dict_update_notin; [reflexivity| |]; intro H; apply in_combine_fst in H; contradiction.
     Qed.
 
-    Lemma rate_mass_action p :
-      Rate env (mk_iso_rxn lv r (sfx p) (psfx p))
-      = prod (map env (map (fun cq => iso_name (fst cq) (snd cq)) (subpairs p)))
-        * prod (map (fun a => env (LPlain a)) extra).
+    (** the renamed arguments are, as a multiset, the substrate isotopomers of the pattern plus the renamed extras *)
+    Lemma renamed_args_perm ns np :
+      length ns = length bs -> length np = length bp ->
+      Permutation (match rk with
+                   | ReplPositional => rename_pos lv (combine bs ns ++ combine bp np) [] (r_args r)
+                   | _ => rename_args (replacements bs ns bp np) (r_args r)
+                   end)
+                  (ns ++ map ext_name extra).
     Proof.
-      unfold rate. cbn [lr_fn lr_args mk_iso_rxn]. rewrite Hfn. cbn [fsem]. unfold rename_args.
+      intros Hls Hlp.
+      assert (Hdict : NoDup bs -> Permutation (rename_args (replacements bs ns bp np) (r_args r)) (ns ++ map LPlain extra)).
+      { intro Hnd_bs. unfold rename_args. fold (ren ns np).
+        apply (Permutation_trans (l' := map (ren ns np) (bs ++ extra))); [apply Permutation_map; exact Hargs|].
+        rewrite map_app, rename_extra, rename_subs by assumption. apply Permutation_refl. }
+      assert (Hpos : Permutation (rename_pos lv (combine bs ns ++ combine bp np) [] (r_args r))
+                                 (ns ++ map (bystander_name lv) extra)).
+      { rewrite rename_pos_unused.
+        2:{ intros k Hk. rewrite countkey_combine by (symmetry; exact Hlp). apply count_occ_not_In. intro Hp.
+            apply (Permutation_in _ Hargs) in Hk. apply in_app_or in Hk. destruct Hk as [Hk|Hk].
+            - exact (subs_prods_disjoint _ _ Hnd_st Hk Hp).
+            - destruct (Hextra k Hk) as [_ [H _]]. contradiction. }
+        eapply Permutation_trans.
+        - apply rename_pos_perm. intro k. rewrite countkey_combine by (symmetry; exact Hls).
+          rewrite (Permutation_count_occ N.eq_dec) in Hargs. rewrite (Hargs k), count_occ_app.
+          destruct (in_dec N.eq_dec k extra) as [Hin|Hnin].
+          + right. destruct (Hextra k Hin) as [Hb _]. split; [|reflexivity]. apply count_occ_not_In. exact Hb.
+          + left. apply (count_occ_not_In N.eq_dec) in Hnin. lia.
+        - rewrite map_snd_combine by (symmetry; exact Hls). apply Permutation_app_head. apply Permutation_map.
+          apply (Permutation_trans (l' := filter (unused (combine bs ns)) (bs ++ extra))); [apply filter_perm; exact Hargs|].
+          rewrite filter_app.
+          assert (Hb : filter (unused (combine bs ns)) bs = []).
+          {
+            clear - Hls. assert (H : forall l, (forall k, In k l -> In k bs) -> filter (unused (combine bs ns)) l = []).
+            { induction l as [|k l IH]; intro H; [reflexivity|]. cbn. unfold unused at 1.
+              rewrite countkey_combine by (symmetry; exact Hls).
+              destruct (Nat.eqb_spec (count_occ N.eq_dec bs k) 0) as [H0|_].
+              - apply (count_occ_not_In N.eq_dec) in H0. exfalso. apply H0. apply H. left. reflexivity.
+              - apply IH. intros j Hj. apply H. right. exact Hj. }
+            apply H. auto. }
+          rewrite Hb. cbn [app].
+          assert (He : forall l, (forall k, In k l -> In k extra) -> filter (unused (combine bs ns)) l = l).
+          { induction l as [|k l IH]; intro H; [reflexivity|]. cbn. unfold unused at 1.
+            rewrite countkey_combine by (symmetry; exact Hls).
+            destruct (Hextra k (H k (or_introl eq_refl))) as [Hnb _]. apply (count_occ_not_In N.eq_dec) in Hnb.
+            rewrite Hnb. cbn. f_equal. apply IH. intros j Hj. apply H. right. exact Hj. }
+          rewrite He by auto. apply Permutation_refl. }
+      unfold ext_name. destruct rk; [|exact Hpos|]; (destruct Hrk as [Hr|Hnd]; [discriminate|apply Hdict; exact Hnd]).
+    Qed.
+
+    Lemma rate_mass_action_gen p :
+      Rate env (mk_iso_rxn rk lv r (sfx p) (psfx p))
+      = prod (map env (map (fun cq => iso_name (fst cq) (snd cq)) (subpairs p))) * prod (map benv extra).
+    Proof.
+      unfold rate. cbn [lr_fn lr_args mk_iso_rxn]. rewrite Hfn. cbn [fsem].
       fold bs. fold bp. fold lps. fold lpp.
       set (ns := assign_labels bs (split_label (sfx p) lps)).
       set (np := assign_labels bp (split_label (psfx p) lpp)).
-      fold (ren ns np). rewrite map_map.
-      rewrite (prod_perm R rO rI radd rmul rsub ropp Rth _ (map (fun k => env (ren ns np k)) (bs ++ extra)))
-        by (apply Permutation_map; exact Hargs).
-      rewrite map_app, p_app. rewrite <- (map_map (ren ns np) env bs), <- (map_map (ren ns np) env extra).
-      rewrite rename_extra, rename_subs.
-      - rewrite map_map. reflexivity.
-      - unfold ns, assign_labels. rewrite map_length, combine_length, split_label_length.
-        unfold lps, labels_per. rewrite map_length. lia.
+      assert (Hls : length ns = length bs).
+      { unfold ns, assign_labels. rewrite map_length, combine_length, split_label_length.
+        unfold lps, labels_per. rewrite map_length. lia. }
+      assert (Hlp : length np = length bp).
+      { unfold np, assign_labels. rewrite map_length, combine_length, split_label_length.
+        unfold lpp, labels_per. rewrite map_length. lia. }
+      rewrite (prod_perm R rO rI radd rmul rsub ropp Rth _ (map env (ns ++ map ext_name extra)))
+        by (apply Permutation_map; apply renamed_args_perm; assumption).
+      rewrite map_app, p_app. f_equal. rewrite map_map. f_equal. apply map_ext_in. intros a Ha.
+      destruct (Hextra a Ha) as [_ [_ H]]. exact H.
     Qed.
-
-    Definition benv (a : N) : R := sum (map (fun q => env (iso_name a q)) (all_patterns (nl a))).
 
     Lemma subpairs_W p :
       In p (all_patterns tsl) ->
@@ -564,31 +741,28 @@ Section Dynamics.
       unfold tsl, lps, labels_per in Hp. fold nl in Hp. lia.
     Qed.
 
-    Lemma sum_rates :
-      sum (map (fun p => Rate env (mk_iso_rxn lv r (sfx p) (psfx p))) (all_patterns tsl))
-      = prod (map benv bs) * prod (map (fun a => env (LPlain a)) extra).
+    Lemma sum_rates_gen :
+      sum (map (fun p => Rate env (mk_iso_rxn rk lv r (sfx p) (psfx p))) (all_patterns tsl))
+      = prod (map benv bs) * prod (map benv extra).
     Proof.
-      rewrite (s_ext _ _ (fun p => W R rI rmul nl (fun c q => env (iso_name c q)) bs p
-                                   * prod (map (fun a => env (LPlain a)) extra))).
+      rewrite (s_ext _ _ (fun p => W R rI rmul nl (fun c q => env (iso_name c q)) bs p * prod (map benv extra))).
       - rewrite s_scale_r. unfold tsl, lps, labels_per. fold nl.
         rewrite (sum_prod_patterns R rO rI radd rmul rsub ropp Rth nl (fun c q => env (iso_name c q)) bs).
         reflexivity.
-      - intros p Hp. rewrite rate_mass_action, subpairs_W by exact Hp. reflexivity.
+      - intros p Hp. rewrite rate_mass_action_gen, subpairs_W by exact Hp. reflexivity.
     Qed.
 
-    Lemma base_rate : prod (map benv (r_args r)) = prod (map benv bs) * prod (map (fun a => env (LPlain a)) extra).
+    Lemma base_rate_gen : prod (map benv (r_args r)) = prod (map benv bs) * prod (map benv extra).
     Proof.
       rewrite (prod_perm R rO rI radd rmul rsub ropp Rth _ (map benv (bs ++ extra)))
         by (apply Permutation_map; exact Hargs).
-      rewrite map_app, p_app. f_equal. f_equal. apply map_ext_in. intros a Ha.
-      destruct (Hextra a Ha) as [_ [_ H0]]. unfold benv. rewrite H0. cbn [all_patterns map iso_name].
-      rewrite s_cons. change (sum []) with 0. ring.
+      rewrite map_app, p_app. reflexivity.
     Qed.
 
     (** C05, dynamics of one mapped mass-action reaction: the derivatives of c's isotopomers sum to
         (base coefficient of c) * (base rate evaluated at the isotopomer totals) *)
-    Theorem dynamics_collapse_rxn c rxns :
-      create_iso_rxns ext_bit lv r lmap = Ok rxns ->
+    Theorem dynamics_collapse_rxn_gen c rxns :
+      create_iso_rxns ext_bit rk lv r lmap = Ok rxns ->
       tpl <= length lmap ->
       sum (map (fun bits => Deriv env rxns (iso_name c bits)) (all_patterns (nl c)))
       = ofZ (match getN c (r_stoich r) with Some v => v | None => 0%Z end) * prod (map benv (r_args r)).
@@ -597,14 +771,74 @@ Section Dynamics.
       rewrite (s_ext _ _ (fun bits => (fun _ => 1) bits * Deriv env rxns (iso_name c bits)))
         by (intros; ring).
       rewrite (weighted_collapse (fun _ => 1) c rxns Hc Hl).
-      pose proof (create_ok_shape _ _ _ _ _ Hc) as [_ [_ Hs]].
+      pose proof (create_ok_shape _ _ _ _ _ _ Hc) as [_ [_ Hs]].
       rewrite (s_ext _ _ (fun p => (ofN (count_occ N.eq_dec bp c) - ofN (count_occ N.eq_dec bs c))
-                                   * Rate env (mk_iso_rxn lv r (sfx p) (psfx p)))).
-      - rewrite s_scale, sum_rates, base_rate.
+                                   * Rate env (mk_iso_rxn rk lv r (sfx p) (psfx p)))).
+      - rewrite s_scale, sum_rates_gen, base_rate_gen.
         rewrite <- (net_stoichiometry _ c Hnd_st), ofZ_minus. reflexivity.
       - intros p Hp. unfold prodpairs, subpairs. rewrite !Gsum_one; [reflexivity| |].
         + rewrite split_label_length. unfold lps, labels_per. rewrite map_length. reflexivity.
         + rewrite split_label_length. unfold lpp, labels_per. rewrite map_length. reflexivity.
     Qed.
   End OneReaction.
+
+  (** ---- the same with the extras being plain unlabelled constants, no compound twice on the substrate side:
+      the form used by the C16 proofs (LinearProofs.v); holds for either form of the renaming block ---- *)
+  Section OneReactionPlain.
+    Variable ext_bit : bool.
+    Variable rk : repl_kind.
+    Variable lv : label_vars.
+    Variable r : brxn.
+    Variable lmap : list Z.
+    Variable env : lname -> R.
+    Variable extra : list N.
+    Let bs := subs_of (r_stoich r).
+    Let bp := prods_of (r_stoich r).
+    Hypothesis Hfn : r_fn r = FProd.
+    Hypothesis Hargs : Permutation (r_args r) (bs ++ extra).
+    Hypothesis Hnd_st : NoDup (map fst (r_stoich r)).
+    Hypothesis Hnd_bs : NoDup bs.
+    Hypothesis Hextra : forall a, In a extra -> ~ In a bs /\ ~ In a bp /\ nlab lv a = O
+                                               /\ (rk = ReplPositional -> getN a lv = None).
+
+    Lemma plain_benv a : nlab lv a = O -> benv lv env a = env (LPlain a).
+    Proof.
+      intro H0. unfold benv. rewrite H0. cbn [all_patterns map iso_name]. rewrite s_cons.
+      change (sum []) with 0. ring.
+    Qed.
+
+    Lemma plain_extra : forall a, In a extra -> ~ In a bs /\ ~ In a bp /\ env (ext_name rk lv a) = benv lv env a.
+    Proof.
+      intros a Ha. destruct (Hextra a Ha) as [H1 [H2 [H0 Hn]]]. split; [exact H1|]. split; [exact H2|].
+      rewrite (plain_benv a H0). unfold ext_name, bystander_name. destruct rk; try reflexivity.
+      rewrite (Hn eq_refl). reflexivity.
+    Qed.
+
+    Lemma plain_kx : prod (map (benv lv env) extra) = prod (map (fun a => env (LPlain a)) extra).
+    Proof.
+      f_equal. apply map_ext_in. intros a Ha. destruct (Hextra a Ha) as [_ [_ [H0 _]]]. apply plain_benv. exact H0.
+    Qed.
+
+    Lemma rate_mass_action p :
+      Rate env (mk_iso_rxn rk lv r (suffix_of ext_bit lv r p) (psuffix_of ext_bit lv r lmap p))
+      = prod (map env (map (fun cq => iso_name (fst cq) (snd cq)) (subpairs ext_bit lv r p)))
+        * prod (map (fun a => env (LPlain a)) extra).
+    Proof.
+      rewrite (rate_mass_action_gen ext_bit rk lv r lmap env extra Hfn Hargs Hnd_st (or_intror Hnd_bs) plain_extra p).
+      rewrite plain_kx. reflexivity.
+    Qed.
+
+    Lemma sum_rates :
+      sum (map (fun p => Rate env (mk_iso_rxn rk lv r (suffix_of ext_bit lv r p) (psuffix_of ext_bit lv r lmap p)))
+               (all_patterns (total (labels_per lv bs))))
+      = prod (map (benv lv env) bs) * prod (map (fun a => env (LPlain a)) extra).
+    Proof.
+      rewrite <- plain_kx.
+      exact (sum_rates_gen ext_bit rk lv r lmap env extra Hfn Hargs Hnd_st (or_intror Hnd_bs) plain_extra).
+    Qed.
+
+    Lemma base_rate :
+      prod (map (benv lv env) (r_args r)) = prod (map (benv lv env) bs) * prod (map (fun a => env (LPlain a)) extra).
+    Proof. rewrite (base_rate_gen lv r env extra Hargs). rewrite plain_kx. reflexivity. Qed.
+  End OneReactionPlain.
 End Dynamics.
